@@ -3,7 +3,7 @@ import itertools
 
 ALLNATIVE = ['tree', 'util', 'token', 'map', 'type', 'decl', 'expr', 'eval', 'init', 'scope', 'targ', 'attr', 'stmt', 'utf', 'scan', 'pp']
 META = {
-    'functions': ['qbe.c:emitdata', 'qbe.c:dataitem', 'qbe.c:emitname', 'qbe.c:qbetype', 'eval.c:eval (constants)', 'init.c:initadd', 'init.c:mkinit'],
+    'functions': ['qbe.c:funcinit', 'qbe.c:zero', 'qbe.c:funcstore', 'qbe.c:funcalloc', 'qbe.c:emitdata', 'qbe.c:dataitem', 'qbe.c:emitname', 'qbe.c:qbetype', 'eval.c:eval (constants)', 'init.c:initadd', 'init.c:mkinit'],
     'bounds': {},
     'stubs': ['printf/puts/fputs/putchar decode the emitted items into a byte image', 'error/fatal end the path', 'xmalloc never NULL'],
     'outside': ['floating-point items (printed as decimal text)', 'address constants symbol+offset (checked textually by the suite)', 'objects larger than 24 bytes',
@@ -31,12 +31,47 @@ def data_instances(tier, fam='data', safety=False):
 OBJ = 24
 
 
+# (name, object size, alignment, [(start, unit bytes, bit position, width or 0 for a plain member)])
+LAYOUTS = [
+    ('int-gap-int', 12, 4, [(0, 4, 0, 0), (8, 4, 0, 0)]),
+    ('char-then-bitfield-same-unit', 4, 4, [(0, 1, 0, 0), (0, 4, 8, 8)]),
+    ('bitfields-mixed-units', 4, 4, [(0, 1, 0, 4), (0, 4, 4, 4)]),
+    ('two-bitfields', 4, 4, [(0, 4, 0, 5), (0, 4, 5, 11)]),
+    ('bitfield-then-int', 8, 4, [(0, 4, 3, 7), (4, 4, 0, 0)]),
+    ('char-pad-long', 16, 8, [(0, 1, 0, 0), (8, 8, 0, 0)]),
+    ('middle-only', 12, 4, [(4, 4, 0, 0)]),
+    ('short-bitfield-tail', 4, 2, [(0, 2, 0, 0), (2, 2, 9, 7)]),
+    ('byte-bitfields', 2, 1, [(0, 1, 1, 7), (1, 1, 0, 3)]),
+    ('long-bitfield', 16, 8, [(0, 8, 0, 33), (0, 8, 33, 31), (8, 4, 0, 0)]),
+    ('tail-zero', 16, 4, [(0, 4, 0, 0)]),
+    ('aligned16', 32, 16, [(16, 4, 0, 0)]),
+]
+
+
+def funcinit_instances(tier, fam='autoinit', safety=False):
+    L = []
+    for nm, size, align, inits in LAYOUTS:
+        inc = '#define OBJSIZE %d\n#define OBJALIGN %d\n#define NINIT %d\nstatic const struct { unsigned start, usz, before, width; } LAY[NINIT] = {%s};\n' % (
+            size, align, len(inits), ', '.join('{%d, %d, %d, %d}' % t for t in inits))
+        L.append(Inst('%s.%s' % (fam, nm), 'h_funcinit.c', {}, units=['type', 'util', 'eval'], overrides=['fatal', 'xmalloc'], native_units=ALLNATIVE, unwind=12,
+                      unwindset=['il_run.0:60', 'il_is_stop.0:14', 'main.0:66', 'main.1:66', 'main.2:66', 'main.3:66', 'main.4:66', 'main.5:66', 'main.6:66', 'zero.0:40'], files={'layout.inc': inc},
+                      family=fam, safety=safety, timeout=300, bound={'layout': nm, 'values and previous memory': 'symbolic'}))
+    return L
+
+
 def instances(build, tier, seed):
-    L = data_instances(tier)
+    L = data_instances(tier) + funcinit_instances(tier)
+    for w in (1, 2, 4):
+        for snel in (2, 3):
+            for sarr in (snel - 1, snel, snel + 2):
+                L.append(Inst('datastr.w%d.lit%d.arr%d' % (w, snel, sarr), 'h_datastr.c', {'W': w, 'SNEL': snel, 'SARR': sarr}, units=['eval', 'type', 'util'],
+                              overrides=['fatal', 'xmalloc'], native_units=ALLNATIVE, unwind=14, unwindset=['streq.0:22'] + ['main.%d:44' % i for i in range(8)],
+                              family='datastr', timeout=300, bound={'element_width': w, 'literal_elements': snel, 'array_elements': sarr, 'contents': 'symbolic'}))
     for nold in ((2,) if tier == 'quick' else (2, 3, 4)):
         L.append(Inst('initadd.old%d' % nold, 'h_initadd.c', {'NOLD': nold}, units=[], unwind=nold + 4, family='initadd',
                       native_units=['util', 'token', 'expr', 'type', 'eval', 'decl', 'map', 'scope', 'targ', 'attr', 'stmt', 'utf', 'scan', 'pp', 'qbe', 'tree'],
                       timeout=300 if tier == 'quick' else 1800, bound={'old_initializers': nold}))
-    META['bounds'] = {'data': 'lists of <= %d initializers (scalar / bit-field in every order), object <= 24 bytes' % (3 if tier == 'quick' else 4),
+    META['bounds'] = {'datastr': 'string-initialised arrays: element width 1/2/4, literal of 2-3 elements, array shorter/equal/longer, symbolic contents',
+                      'data': 'lists of <= %d initializers (scalar / bit-field in every order), object <= 24 bytes' % (3 if tier == 'quick' else 4),
                       'initadd': 'valid lists of <= %d entries + 1 new' % (3 if tier == 'quick' else 4)}
     return L
